@@ -60,6 +60,7 @@ def run(chk: Check) -> None:
     run_progress_reads_what_was_written(chk, ix)
     run_literal_strings_encodable(chk, ix)
     run_loop_else_outside_loop(chk, ix)
+    run_single_typevartuple(chk, ix)
 
     r1 = chk.rule("R20.1", "every loop that re-queues deferred work has a per-iteration counter compared with a constant bound that exits the loop; type-checker deferral is limited by pass_num < last_pass", floor=7)
     n_loops = 0
@@ -838,3 +839,26 @@ def run_loop_else_outside_loop(chk: Check, ix) -> None:
             r.violation(key, f.loc(elses[0].stmt), "the else body is analysed while loop_depth still counts the loop: `for x in y: pass\\nelse: break` raises no `\"break\" outside loop` blocker, type checking goes on and the checker indexes the empty break_frames list (INTERNAL ERROR; the daemon dies)")
     if n < 2:
         raise AnalysisError(f"SemanticAnalyzer: {n} loop statements with an else body found (expected for and while)")
+
+
+def run_single_typevartuple(chk: Check, ix) -> None:
+    """R20.17: the type variable list of a class never carries two TypeVarTuples into TypeInfo.add_type_vars."""
+    r = chk.rule("R20.17", "TypeInfo.add_type_vars asserts that a class has at most one TypeVarTuple; the list it reads is assembled by SemanticAnalyzer.clean_up_bases_and_infer_type_variables from three sources that each drop (and report) a second TypeVarTuple, and, on the error path, from the concatenation `declared_tvars + all_tvars` of two lists that may each contain one: a statement that merges two type-variable lists is followed in the same block by a filter that keeps a single TypeVarTupleExpr (a loop that tests isinstance(.., TypeVarTupleExpr) and removes the surplus)", floor=1)
+    f = ix.func("mypy.semanal.SemanticAnalyzer.clean_up_bases_and_infer_type_variables")
+    par = f.module.parents()
+    n = 0
+    for a in ast.walk(f.node):
+        if not (isinstance(a, ast.Assign) and any(isinstance(b, ast.BinOp) and isinstance(b.op, ast.Add) and isinstance(b.left, ast.Name) and isinstance(b.right, ast.Name) and "tvars" in b.left.id and "tvars" in b.right.id for b in ast.walk(a.value))):
+            continue
+        n += 1
+        blk_owner = par[a]
+        blk = next((b for fld in ("body", "orelse") for b in [getattr(blk_owner, fld, None)] if isinstance(b, list) and any(x is a for x in b)), None)
+        following = blk[[i for i, x in enumerate(blk) if x is a][0] + 1:] if blk else []
+        filt = any(isinstance(lp, ast.For) and any(isinstance(c, ast.Call) and norm(c.func) == "isinstance" and "TypeVarTupleExpr" in norm(c) for c in ast.walk(lp)) and any(isinstance(c, ast.Call) and isinstance(c.func, ast.Attribute) and c.func.attr in ("remove", "pop") for c in ast.walk(lp)) for st in following for lp in ast.walk(st))
+        key = f"clean_up_bases_and_infer_type_variables: `{norm(a)[:70]}` is followed by the one-TypeVarTuple filter"
+        if filt:
+            r.ok(key, f.loc(a))
+        else:
+            r.violation(key, f.loc(a), "two type-variable lists are merged and handed on as they are: `class D[*Ts](Tuple[*Us])` (Us an old-style TypeVarTuple) gives the class two TypeVarTuples and TypeInfo.add_type_vars asserts (INTERNAL ERROR)")
+    if n < 1:
+        raise AnalysisError("clean_up_bases_and_infer_type_variables: the merge of declared and inferred type variables was not found")
